@@ -488,12 +488,18 @@ Definition stringify_keys (first : action) (ks : path) : pystr :=
 (* ------------------------------------------------------------------ *)
 Definition str_ok (s : pystr) : bool :=
   negb (has_char cSQ s && has_char cDQ s) && negb (last s 0 =? cESC).
+(* bytes keys (outside C09's quantifier; printed since /repo commit 0fac13b):
+   printable ASCII without backslash, not both quote characters - exactly when
+   repr needs no escape *)
+Definition bytes_ok (s : pystr) : bool :=
+  forallb (fun c => (32 <=? c) && (c <=? 126) && negb (c =? cBS)) s
+  && negb (has_char cSQ s && has_char cDQ s).
 Definition key_ok (k : pkey) : bool :=
   match k with
   | PIdx _ => true
   | PKey ANone | PKey (ABool _) | PKey (AInt _) => true
   | PKey (AHalf t) => Z.ltb (Z.abs t) 9007199254740992   (* 2^53: exact doubles, repr without exponent *)
   | PKey (AStr s) => str_ok s
-  | PKey (ABytes _) => false
+  | PKey (ABytes s) => bytes_ok s
   end.
 Definition path_ok (ks : path) : bool := forallb key_ok ks.
